@@ -69,7 +69,7 @@ func generate(w *mon.W) {
 		case 6:
 			p = namedThenNarrowed(rng)
 		case 10:
-			p = manyConditions(rng, 1+j%10)
+			p = manyConditions(rng, 1+j%20)
 		case 12:
 			p = pairedConditions(rng, j%6)
 		case 14:
@@ -212,6 +212,12 @@ func namedThenNarrowed(rng interface{ Intn(int) int }) *Pipe {
 		right.Ops = append(right.Ops, &Op{K: "summarize", Cols: []Col{{Name: id("rid"), X: Call("count")}}, HasBy: true, By: []Col{{Name: id("rk"), X: Name("k")}}})
 	}
 	kind := []string{"", "inner", "leftouter", "innerunique"}[rng.Intn(4)]
+	if rng.Intn(3) == 0 {
+		// the named result is read one join deeper: by a join inside the right-hand side
+		right = &Pipe{Table: Ident{Name: "V"}, Ops: []*Op{
+			{K: "project", Cols: []Col{{Name: id("vid")}, {Name: id("vk"), X: Name("k")}}},
+			{K: "join", Kind: "inner", Right: right, Conds: []*E{Bin("==", Name("$left", "vk"), Name("$right", "rk"))}}}}
+	}
 	p.Ops = append(p.Ops, &Op{K: "join", Kind: kind, Right: right, Conds: []*E{Bin("==", Name("$left", "k"), Name("$right", "rk"))}})
 	if rng.Intn(3) == 0 {
 		p.Ops = append(p.Ops, &Op{K: "count"})
@@ -219,20 +225,25 @@ func namedThenNarrowed(rng interface{ Intn(int) int }) *Pipe {
 	return p
 }
 
-// manyConditions: one join with n conditions (1..10), each of which really
-// restricts the result: bare keys, equalities between differently named
-// columns, inequalities, conditions on one side only.
+// manyConditions: one join with n conditions (1..20), all of which hold for
+// every pair of rows except one selective condition at a position that
+// varies: a condition that gets lost makes the result larger.
 func manyConditions(rng interface{ Intn(int) int }, n int) *Pipe {
 	l := func(c string) *E { return Name("$left", c) }
 	r := func(c string) *E { return Name("$right", c) }
-	pool := []*E{Name("k"), Name("j"), Bin("==", l("id"), r("uid")), Bin("==", l("ia"), r("ub")), Bin("<=", l("id"), r("uid")), Bin(">=", l("K"), r("k")),
-		Bin("!=", l("ia"), r("uid")), Bin("==", l("K"), r("j")), Bin(">", l("id"), Num("0")), Bin("<", r("ub"), Num("3")), Bin("==", r("uid"), l("k")), Bin("==", l("j"), r("ub"))}
-	p := &Pipe{Table: Ident{Name: "T"}}
+	always := []*E{Bin(">=", l("id"), Num("0")), Bin(">", r("uid"), Un("-", Num("1"))), Bin("!=", l("id"), Un("-", Num("5"))), Bin("<", r("uid"), Num("1000")),
+		Bin("<=", Un("-", Num("9")), l("id")), Call("not", Bin("==", r("uid"), Un("-", Num("2")))), Bin(">=", Bin("+", l("id"), r("uid")), Num("0")), Call("isnotnull", l("id"))}
+	selective := []*E{Name("k"), Bin("==", l("k"), r("j")), Bin("==", l("id"), r("uid")), Bin("<", l("id"), r("uid")), Bin("==", l("ia"), r("ub"))}
+	pos := rng.Intn(n)
 	var conds []*E
-	start := rng.Intn(len(pool))
 	for i := 0; i < n; i++ {
-		conds = append(conds, pool[(start+i*5)%len(pool)])
+		if i == pos {
+			conds = append(conds, selective[rng.Intn(len(selective))])
+		} else {
+			conds = append(conds, always[(i*3+pos)%len(always)])
+		}
 	}
+	p := &Pipe{Table: Ident{Name: "T"}}
 	kind := []string{"", "inner", "leftouter", "innerunique"}[rng.Intn(4)]
 	p.Ops = append(p.Ops, &Op{K: "join", Kind: kind, Right: &Pipe{Table: Ident{Name: "U"}}, Conds: conds})
 	if rng.Intn(2) == 0 {
